@@ -1370,8 +1370,12 @@ func decodeSchemaConstructs(dec *urlValuesDecoder, schemas []*openapi3.SchemaRef
 		}
 
 		for name, prop := range schemaRef.Value.Properties {
-			value, _, err := decodeProperty(dec, name, prop, encFn)
+			value, found, err := decodeProperty(dec, name, prop, encFn)
 			if err != nil {
+				continue
+			}
+			if !found && isNilValue(value) {
+				// the form does not carry this property: leave it absent instead of null
 				continue
 			}
 			if existingValue, exists := obj[name]; exists && !isEqual(existingValue, value) {
